@@ -19,7 +19,7 @@ class C06(Prop):
     imports = "From Tola Require Import Py.Base Model.Fragment Model.Fasta Model.AgpTpf Corr.AgpTpf."
     show_fn = "show"
     design_ref = "6/C06"
-    required_theorems = []
+    required_theorems = ['C06_lines_are_rendered_nums', 'C06_tiles', 'C06_last_end', 'C06_one_line_per_row', 'C06_gap_columns', 'C06_frag_columns', 'C06_format_total']
 
     def rule(self):
         return (
